@@ -19,6 +19,7 @@ type p2Case struct {
 	DoubleCheck bool          `json:"dc,omitempty"`
 	Extra       []string      `json:"extra,omitempty"`  // unrelated files to drop beside the set (C02)
 	FailWrite   int           `json:"failwrite,omitempty"` // C02: the k-th write during Repair fails without effect (0 = none)
+	AutoPrune   bool          `json:"autoprune,omitempty"` // C16: delete recovery files so that exactly as many blocks remain as slices are unfindable
 }
 
 // clause selection
@@ -65,6 +66,40 @@ func runP2(c *p2Case, r *core.Rec, cl p2Clauses) *p2Run {
 		fs.Put(e, scen.Garbage(r.Seed, 400+i, 9))
 	}
 	t := s.Truth(fs)
+	if c.AutoPrune {
+		// choose a subset of the recovery files (whatever way Create distributed the blocks) holding exactly K blocks
+		var files []string
+		var sizes []int
+		for _, p := range s.RecFiles {
+			if _, ok := fs.Get(p); ok {
+				files = append(files, p)
+				sizes = append(sizes, len(s.RecExps[p]))
+			}
+		}
+		best := -1
+		for mask := 0; mask < 1<<uint(len(files)); mask++ {
+			sum := 0
+			for i := range files {
+				if mask&(1<<uint(i)) != 0 {
+					sum += sizes[i]
+				}
+			}
+			if sum == t.K {
+				best = mask
+				break
+			}
+		}
+		if best < 0 {
+			r.Count("autoprune_impossible", 1)
+		} else {
+			for i, p := range files {
+				if best&(1<<uint(i)) == 0 {
+					fs.Del(p)
+				}
+			}
+			t = s.Truth(fs)
+		}
+	}
 	run := &p2Run{S: s, T: t}
 	o := &run.O
 	vfs := fs.Clone()
